@@ -516,6 +516,9 @@ impl<'a, T> ChordsV2<'a, T> {
 
         // Clear presses from the queue if they were consumed by a chord.
         if self.active_chords.len() > prev_active_chords_len {
+            // The countdown belonged to the presses that are now consumed. Left running, it would
+            // hold back later events that happen to restore the remembered queue length.
+            self.ticks_until_next_state_change = 0;
             self.queue.retain(|qd| match qd.event {
                 Event::Press(_, j) => !accumulated_presses.contains(&j),
                 _ => true,
